@@ -152,7 +152,29 @@ fn standalone<E: EndianParse>(ctx: &mut Ctx, e: E, enc: Enc, m: &VersionModel, v
     let needs = if m.has_needs { Some((VerNeedIterator::new(e, class, m.needs.len() as u64, 0, &vb.verneed), strs)) } else { None };
     let defs = if m.has_defs { Some((VerDefIterator::new(e, class, m.defs.len() as u64, 0, &vb.verdef), dstrs)) } else { None };
     let table = SymbolVersionTable::new(VersionIndexTable::new(e, class, &vb.versym), needs, defs);
-    judge(ctx, "standalone", m, &table);
+    if !judge(ctx, "standalone", m, &table) {
+        return;
+    }
+    // the record iterators under the std Iterator protocol
+    if m.has_needs && m.needs.len() <= 12 {
+        let nb = &vb.verneed[..];
+        if !super::util::iter_protocol(ctx, "VerNeedIterator", || VerNeedIterator::new(e, class, m.needs.len() as u64, 0, nb), |(vn, aux)| format!("{:?}", (vn, aux.collect::<Vec<_>>())), m.needs.len() + 3, false) {
+            return;
+        }
+    }
+    if m.has_defs && m.defs.len() <= 12 {
+        let db = &vb.verdef[..];
+        if !super::util::iter_protocol(ctx, "VerDefIterator", || VerDefIterator::new(e, class, m.defs.len() as u64, 0, db), |(vd, aux)| format!("{:?}", (vd, aux.collect::<Vec<_>>())), m.defs.len() + 3, false) {
+            return;
+        }
+        // the names of the first definition
+        let idx0 = m.versym.iter().position(|v| m.defs.first().map(|d| d.ndx == v & 0x7fff).unwrap_or(false));
+        if let Some(i) = idx0 {
+            if table.get_definition(i).ok().flatten().is_some() {
+                let _ = super::util::iter_protocol(ctx, "SymbolNamesIterator", || table.get_definition(i).unwrap().unwrap().names, |r| format!("{:?}", r.map(|s| s.to_string()).map_err(|e| format!("{e:?}"))), 8, false);
+            }
+        }
+    }
 }
 
 pub fn note_model(ctx: &mut Ctx, enc: Enc, m: &VersionModel, vb: &VersionBytes) {
